@@ -1045,6 +1045,18 @@ def check_c05(tier, seed, log=print):
                 fails.add(idx)
                 run.violation('bounds', rep_of(r, idx, cfgname, mode, hx, observed=v, what=msg),
                               key='bounds|%s|%s' % (r['corpus'][idx].origin, hx))
+    # every request is run twice, the source followed in memory by two different tails (zoo_rt::with_tails): an answer that
+    # depends on the bytes behind the source was computed from a read outside it
+    for cfgname in cfgs:
+        if 'trace' in cfgname or r['zoo_out'][cfgname] is None:
+            continue
+        for ln in r['zoo_out'][cfgname]:
+            if 'TAILDEPENDENT' in ln:
+                idx, mode, hx, v = split_line(ln)
+                fails.add(idx)
+                run.violation('over-read', rep_of(r, idx, cfgname, mode, hx, observed=v,
+                                                  what='the result depends on the bytes that follow the source in memory (the same input, as a prefix of two allocations with different tails, lexes differently): a read outside the source slice'),
+                              key='overread|%s|%s' % (r['corpus'][idx].origin, hx))
     # oracle on the real read trace: hit iff inside; recorded ends inside the source
     tn = 0
     nontriv = set()
